@@ -187,6 +187,8 @@ impl File {
         let mut lig_kern_precedes = false;
 
         let mut next_larger_span = HashMap::<Char, std::ops::Range<usize>>::new();
+        // Warnings without a pltotf context offset; appended after the others have been sorted.
+        let mut lig_table_warnings: Vec<ParseWarning> = vec![];
 
         for node in ast.0 {
             match node {
@@ -302,7 +304,7 @@ impl File {
                                 );
                                 lig_kern_precedes = true;
                             }
-                            ast::LigTable::Stop(_) => {
+                            ast::LigTable::Stop(v) => {
                                 if lig_kern_precedes {
                                     file.lig_kern_program
                                         .instructions
@@ -310,7 +312,12 @@ impl File {
                                         .unwrap()
                                         .next_instruction = None;
                                 } else {
-                                    // TODO: error
+                                    // PLtoTF.2014.122
+                                    lig_table_warnings.push(ParseWarning {
+                                        span: v.data_span,
+                                        knuth_pltotf_offset: None,
+                                        kind: ParseWarningKind::StopOrSkipWithoutStep { is_stop: true },
+                                    });
                                 }
                                 lig_kern_precedes = false;
                             }
@@ -322,7 +329,12 @@ impl File {
                                         .unwrap()
                                         .next_instruction = Some(v.data.0);
                                 } else {
-                                    // TODO: error
+                                    // PLtoTF.2014.121
+                                    lig_table_warnings.push(ParseWarning {
+                                        span: v.data_span,
+                                        knuth_pltotf_offset: None,
+                                        kind: ParseWarningKind::StopOrSkipWithoutStep { is_stop: false },
+                                    });
                                 }
                                 lig_kern_precedes = false;
                             }
@@ -405,6 +417,8 @@ impl File {
             w.knuth_pltotf_offset
                 .expect("all warnings generated so far have an offset populated")
         });
+
+        errors.extend(lig_table_warnings);
 
         // PLtoTF.2014.116
         if let Some(final_instruction) = file.lig_kern_program.instructions.last_mut() {
